@@ -66,6 +66,10 @@ void
 evwatch_free(struct evwatch *watcher)
 {
 	EVBASE_ACQUIRE_LOCK(watcher->base, th_base_lock);
+	/* If event_base_loop is about to invoke this watcher, make it skip to
+	 * the one after it. */
+	if (watcher->base->watcher_iter_next == watcher)
+		watcher->base->watcher_iter_next = TAILQ_NEXT(watcher, next);
 	TAILQ_REMOVE(&watcher->base->watchers[watcher->type], watcher, next);
 	EVBASE_RELEASE_LOCK(watcher->base, th_base_lock);
 	mm_free(watcher);
